@@ -141,11 +141,16 @@ Expect(s, ev) ==
              okPub == ev.puberr = "" /\ ev.pubx = B32(pt[1]) /\ ev.puby = B32(pt[2])
              okSig == f.kind = "sig" => (ev.err = "" /\ ev.r = B32(f.r) /\ ev.s = B32(f.s))
              okVer == f.kind = "sig" => (ev.stage = "done" /\ ev.vok)
-         IN [st |-> s, ok |-> ev.panic = "" /\ okPub /\ okSig /\ okVer,
+             \* the caller's buffers are as they were, and the same verification again says the same
+             okIns == ev.puberr = "" => ev.sv_ins_after = ev.sv_ins
+             okRep == f.kind = "sig" => ev.vok2
+         IN [st |-> s, ok |-> ev.panic = "" /\ okPub /\ okSig /\ okVer /\ okIns /\ okRep,
              why |-> IF ev.panic # "" THEN "signverify: panic in " \o ev.stage
                      ELSE IF ~okPub THEN "signverify: public key"
                      ELSE IF ~okSig THEN "signverify: signature value"
-                     ELSE "signverify: own signature rejected"]
+                     ELSE IF ~okVer THEN "signverify: own signature rejected"
+                     ELSE IF ~okIns THEN "signverify: an input buffer was modified"
+                     ELSE "signverify: own signature rejected when verified again on the same buffers"]
     [] ev.op = "sm2.verify" ->
         (CASE ev.kind = "hashed" ->
                 [st |-> s, ok |-> VerifyOK(ev, ev.e) /\ InsSame(ev, <<ev.pubx, ev.puby, ev.r, ev.s, ev.e>>),
